@@ -103,6 +103,10 @@ ZeroOnlyAtEnd == AtReturn /\ bufn > 0 /\ out.res = "ok" /\ out.k = 0 => delivere
 ErrOnlyAtEnd  == AtReturn /\ out.res \in {"eof", "invalid"} => delivered = Derivable(Consumable)
 CompleteOnIntact == AtReturn /\ cut > Total /\ (out.res # "ok" \/ (out.k = 0 /\ bufn > 0)) => delivered = Plain
 NeverPoisoned == ~dead
-\* the loop of one call terminates: it cannot iterate without consuming input or finishing a block
+\* the loop of one call terminates: it cannot iterate for ever without consuming input or finishing a block
+\* (the decoder may answer "needs more input" without consuming or producing anything: the source then makes progress
+\* or is at its end)
+FairSpec == Spec /\ WF_vars(Iter)
+CallReturns == (pc = "loop") ~> (pc = "idle")
 View == <<blocks, cut, srcPos, filled, roff, bi, cons, prod, uread, delivered, pc, bufn, dead>>
 =============================================================================
